@@ -131,13 +131,78 @@ func TestC05(t *testing.T) {
 	defer r.Finish()
 	r.Rule("for every generated program and every prefix H of its line sequence: VM_A (has processed H) and a freshly compiled VM_B loaded with A's metric state both process the next line; resulting stores (values, label sets, expiry, timestamps) and runtime-error bits must agree. Programs come from the typed generator in a 'stateful' mix: strptime on captured/literal strings under three layouts (same text under different layouts, failing parses, repeats), failing conversions, stop, zero divisors, optional groups. Non-trivial: the probe line changed the store or raised an error; distinct by (program, history length).")
 	r.Assume("timestamps are compared exactly unless both fall inside the probe's wall-clock bracket (both mean 'now')", "state is transferred through the public datum API only")
+	// pinned shapes: per-line VM state that ordinary programs overwrite before
+	// reading it (capture results behind a short-circuit or in a branch not
+	// taken, the time register, the matched flag), each with a line sequence
+	// that sets the state on one line and takes the other path on the next
+	for _, pc := range []struct {
+		src   string
+		lines []string
+	}{
+		{"counter m by k\n/^(?P<sev>\\w+) (?P<rest>.*)$/ {\n  $sev == \"FATAL\" || $rest =~ /code=(?P<code>\\d+)/ {\n    m[$code]++\n  }\n}\n",
+			[]string{"INFO code=17", "FATAL boom", "INFO code=3", "FATAL x", "INFO nothing"}},
+		{"counter m by k\n/^(\\w+) (.*)$/ {\n  $1 == \"A\" || $2 =~ /v=(\\d+)/ {\n    m[$1]++\n  }\n}\n",
+			[]string{"B v=1", "A zz", "B zz", "A v=2"}},
+		{"counter m by k\ngauge g\n/^x (\\d+)/ {\n  g = $1\n} else {\n  /^y/ {\n    m[$1]++\n  }\n}\n",
+			[]string{"x 5", "y", "x 6", "z", "y"}},
+		{"gauge t\n/^T (\\S+)/ {\n  strptime($1, \"2006-01-02T15:04:05Z07:00\")\n}\n/^R/ {\n  t = timestamp()\n}\n",
+			[]string{"T 2021-03-04T05:06:07Z", "R", "T bad", "R", "T 2019-12-31T23:59:59Z", "R"}},
+		{"counter a\ncounter b\n/^p/ {\n  a++\n}\notherwise {\n  b++\n}\n",
+			[]string{"p", "q", "p", "p", "q"}},
+		{"counter a\n/^s/ {\n  stop\n}\n/./ {\n  a++\n}\n",
+			[]string{"s", "t", "s", "s", "t"}},
+	} {
+		a, err := mt.Load(mt.UniqueName("c05pa"), pc.src, mt.VMOpts{})
+		if err != nil {
+			r.Violation("pinned-shape-rejected", witness{Program: pc.src, What: err.Error()})
+			continue
+		}
+		for k, probe := range pc.lines {
+			b, err := mt.Load(mt.UniqueName("c05pb"), pc.src, mt.VMOpts{})
+			if err != nil {
+				break
+			}
+			if err := copyState(b.Obj.Metrics, a.Obj.Metrics); err != nil {
+				b.Close()
+				r.Violation("state-transfer", witness{Program: pc.src, What: err.Error()})
+				break
+			}
+			t0 := time.Now().UnixNano()
+			ea, eb := a.Line("logfile", probe), b.Line("logfile", probe)
+			t1 := time.Now().UnixNano()
+			w := witness{Program: pc.src, History: pc.lines[:k], Probe: probe}
+			r.Eval(1)
+			r.Count("pinned_shape_probes", 1)
+			d := diff(rows(a.Obj.Metrics), rows(b.Obj.Metrics), t0, t1)
+			b.Close()
+			if ea != eb {
+				w.What = fmt.Sprintf("runtime error raised with history=%v, in a fresh copy=%v", ea, eb)
+				r.Violation("error-bit", w)
+				break
+			}
+			if d != "" {
+				w.What = d
+				r.Violation("store-differs", w)
+				break
+			}
+		}
+		a.Close()
+	}
 	n := ev.Pick(500, 15000)
 	nlines := ev.Pick(20, 26)
 	rng := ev.NewRNG(ev.Seed(), "c05")
 	ev.Parallel(n, runtime.GOMAXPROCS(0), func(i int) {
 		g := rng.Sub(i)
-		p := gen.Generate(g, gen.Opts{Strptime: true, ErrHeavy: i%2 == 0, StateHeavy: true, ElseOtherwise: true, NoHist: i%3 == 0})
+		p := gen.Generate(g, gen.Opts{Strptime: true, ErrHeavy: i%2 == 0, StateHeavy: true, ElseOtherwise: true, NoHist: i%3 == 0, DeadCapRefs: i%2 == 1})
 		src := (&gen.Renderer{IndexStyle: g.Intn(2)}).Render(p)
+		for _, f := range []string{"dead-capture-reference", "cond-expr||match", "cond-pattern||", "match-op"} {
+			if p.Features[f] > 0 {
+				r.Count("programs_with_"+f, 1)
+			}
+		}
+		if p.Features["cond-expr||match"] > 0 && p.Features["dead-capture-reference"] > 0 && i < 200 {
+			r.Sample(map[string]any{"program_with_unevaluated_capture_read": src})
+		}
 		// lines with many repeats so that memoised values recur
 		pool := make([]string, 6)
 		for k := range pool {
